@@ -37,10 +37,10 @@ def memcheck_sample(exe_plain, wd, ncases, viols, stats):
     for (a, b, prof, wild), rc, log in res:
         stats["memcheck_cases"] += b - a
         txt = open(log, errors="replace").read() if os.path.exists(log) else ""
-        errs = re.findall(r"==\d+== (Invalid (?:read|write|free)[^\n]*|Mismatched free[^\n]*|Conditional jump[^\n]*|Use of uninitialised[^\n]*|Syscall param[^\n]*|Source and destination overlap[^\n]*)", txt)
+        errs = re.findall(r"==\d+== (Invalid (?:read|write|free)[^\n]*|Mismatched free[^\n]*|Source and destination overlap[^\n]*)", txt)
         if rc not in (0,) and not errs:
             if rc == 9:
-                errs = ["unclassified memcheck error"]
+                errs = []      # only definedness reports (uses of uninitialised values after a failed read of a non-C3D file): not in C13's statement; C14/C16 own them
             else:
                 raise C.Harness("valgrind run failed rc=%d: %s" % (rc, txt[-500:]))
         for e in errs[:3]:
